@@ -13,6 +13,7 @@ package main
 import (
 	"bufio"
 	"crypto/sha256"
+	"encoding/hex"
 	"encoding/json"
 	"fmt"
 	"math/big"
@@ -136,6 +137,9 @@ type signGen interface {
 	AddWitnessSign(id groupsig.ID, sig groupsig.Signature) (bool, bool)
 	GetGroupSign() groupsig.Signature
 }
+
+// paramMu serialises the ops that set model.Param for one call (membercount).
+var paramMu sync.Mutex
 
 // lgenNew is set by lgen_hook.go when the harness is built with tag c13lgen.
 var lgenNew func(k int) signGen
@@ -459,6 +463,55 @@ func execOp(line string) string {
 			res += " RESULT-CHANGED-LATER"
 		}
 		return res
+	case "idkey":
+		// idkey <id>: the map key of an id and what SetHexString reads back from it
+		if len(w) != 2 {
+			return "bad-op"
+		}
+		x, ok := tokNat(w[1])
+		if !ok {
+			return "bad-op"
+		}
+		key := idOf(x).GetHexString()
+		var back groupsig.ID
+		if err := back.SetHexString(key); err != nil {
+			return key + " arg-failed"
+		}
+		return key + " ok " + natTok(back.GetBigInt())
+	case "idparse":
+		if len(w) != 2 {
+			return "bad-op"
+		}
+		sb, err := hx.UnHex(w[1])
+		if err != nil {
+			return "bad-op"
+		}
+		var id groupsig.ID
+		if err := id.SetHexString(string(sb)); err != nil {
+			return "arg-failed"
+		}
+		return "ok " + natTok(id.GetBigInt())
+	case "membercount":
+		// membercount <min> <max> <ratio> <avail>: the real CreateGroupMemberCount / IsGroupMemberCountLegal
+		// under these parameters (model.Param is set for the call and restored)
+		if len(w) != 5 {
+			return "bad-op"
+		}
+		var v [4]int
+		for i := 0; i < 4; i++ {
+			n, ok := tokDec(w[1+i])
+			if !ok {
+				return "bad-op"
+			}
+			v[i] = n
+		}
+		paramMu.Lock()
+		defer paramMu.Unlock()
+		saved := model.Param
+		defer func() { model.Param = saved }()
+		model.Param.GroupMemberMin, model.Param.GroupMemberMax, model.Param.CandidatesMinRatio = v[0], v[1], v[2]
+		c := model.Param.CreateGroupMemberCount(v[3])
+		return strconv.Itoa(c) + " " + strconv.FormatBool(model.Param.IsGroupMemberCountLegal(c))
 	case "deliver":
 		// deliver <n> <id> <share> <pub> ... : one member's groupNodeInfo fed with this history
 		if len(w) < 2 || (len(w)-2)%3 != 0 {
@@ -1384,6 +1437,53 @@ func (g *gen) genDeliver(cnt int) {
 	g.emit("deliver 2")
 }
 
+// id <-> map key round trip, SetHexString on arbitrary strings, group size selection
+func (g *gen) genIdAndParam(cnt int) {
+	for i := 0; i < cnt; i++ {
+		var x *big.Int
+		switch g.r.Intn(6) {
+		case 0:
+			x = g.bigBytes(32 - g.r.Pick(1, 2, 3, 8, 31)) // leading zero bytes
+		case 1:
+			x = g.scalar()
+		case 2:
+			x = new(big.Int).Lsh(big.NewInt(1), uint(8*g.r.Intn(32))) // 0x0100..00 patterns
+		case 3:
+			x = new(big.Int).Add(two256, big.NewInt(int64(g.r.Intn(3)))) // too large: Serialize panics
+		default:
+			x = g.bigBytes(32)
+		}
+		g.count("idkey")
+		g.emit("idkey " + natTok(x))
+		var str string
+		switch g.r.Intn(7) {
+		case 0:
+			str = "0x" + strings.ToUpper(hex.EncodeToString(g.r.Bytes(1+g.r.Intn(32))))
+		case 1:
+			str = hex.EncodeToString(g.r.Bytes(4)) // no prefix
+		case 2:
+			str = "0X" + hex.EncodeToString(g.r.Bytes(4)) // wrong-case prefix
+		case 3:
+			str = []string{"", "0", "0x", "x0ab", "0x0", "0x00000"}[g.r.Intn(6)]
+		case 4:
+			str = "0x" + hex.EncodeToString(g.r.Bytes(40)) // more than 32 bytes
+		default:
+			str = "0x" + hex.EncodeToString(g.r.Bytes(1+g.r.Intn(32)))
+		}
+		g.count("idparse")
+		g.emit("idparse " + hx.Hex([]byte(str)))
+		mn := g.r.Pick(0, 1, 3, 5, 5)
+		mx := mn + g.r.Pick(0, 1, 5, 5, 95)
+		ratio := g.r.Pick(1, 1, 1, 2, 3, 0)
+		avail := g.r.Pick(0, 1, mn-1, mn, mn*ratio-1, mn*ratio, mx*ratio, mx*ratio+1, mx*ratio+ratio, 1000, 1<<40)
+		if avail < 0 {
+			avail = 0
+		}
+		g.count("membercount")
+		g.emit(fmt.Sprintf("membercount %d %d %d %d", mn, mx, ratio, avail))
+	}
+}
+
 // hash-to-G1 of the code against the reference, on boundary messages
 func (g *gen) genHash(n int) {
 	for i, m := range g.pool.msgs {
@@ -2174,6 +2274,7 @@ func main() {
 	g.genG2(12 * scale)
 	g.genHash(20 * scale)
 	g.genDeliver(30 * scale)
+	g.genIdAndParam(40 * scale)
 	min, max := model.Param.GroupMemberMin, model.Param.GroupMemberMax
 	if thorough {
 		var sizes []int
